@@ -6,6 +6,12 @@ From Verif Require Import Json Outcome Match PatIndex State MatchLemmas1
 Theorem cascade_terminates : cascade_terminates_statement.
 Proof. intros s id now. apply st_rem_not_oof. Qed.
 
+Theorem purge_terminates : purge_terminates_statement.
+Proof. intros s now. split; [apply purge_ok|apply purge_clears]. Qed.
+
+Theorem purge_keeps_answer : purge_keeps_answer_statement.
+Proof. intros A r now. apply with_purge_eq. Qed.
+
 Theorem cascade_fuel_irrelevant : cascade_fuel_irrelevant_statement.
 Proof. intros s id now fuel H. apply rem_fuel_irrelevant. exact H. Qed.
 
@@ -39,9 +45,9 @@ Qed.
 (** D14 witness: one fact that depends on "other"; removing the absent,
     variable-looking id "?zzz" deletes it. *)
 Definition d14_state : state :=
-  mkState Linear [("keep", JObj [("deleteWith", JArr [JStr "other"])])] [] pn_empty [] false 0 None false.
+  mkState Linear [("keep", JObj [("deleteWith", JArr [JStr "other"])])] [] pn_empty [] false 0 None false [].
 Definition d14_state' : state :=
-  mkState Linear [] [] pn_empty [] false 2 None false.
+  mkState Linear [] [] pn_empty [] false 2 None false [].
 
 Lemma d14_clo j : Clo d14_state "?zzz" j -> j = "?zzz".
 Proof.
@@ -61,6 +67,8 @@ Proof.
 Qed.
 
 Print Assumptions cascade_terminates.
+Print Assumptions purge_terminates.
+Print Assumptions purge_keeps_answer.
 Print Assumptions cascade_fuel_irrelevant.
 Print Assumptions cascade_exact_linear.
 Print Assumptions cascade_ok_linear.
